@@ -49,6 +49,18 @@ pub fn run(ctx: &'static Ctx) {
         let r = if form < 2 { tdcheck::observe(&text).map(|_| ()) } else { observe_tx(&text, &Signer::Fixed(U256::from_u64(3), U256::from_u64(4), false)).map(|_| ()) };
         crash(ctx, "json-nesting", i, &format!("{},depth={}", if form < 2 { "typeddata" } else { "transaction" }, match depth { 0..=64 => "<=64", 65..=128 => "65-128", _ => ">128" }), if form < 2 { "typeddata" } else { "transaction" }, &text, r);
     });
+    // type graphs in which work would explode if dependencies were resolved per reference path instead of per type:
+    // ladders L_k(L_{k+1}[] a, L_{k+1}[] b) and long single chains
+    let mut ladders: Vec<(String, refmodel::eip712::Doc)> = Vec::new();
+    for (depth, width) in [(10usize, 2usize), (20, 2), (30, 2), (48, 2), (64, 2), (20, 3), (40, 3), (16, 5), (100, 1), (1000, 1), (5000, 1)] {
+        let mut types = Vec::new();
+        for k in 0..depth { let ms: Vec<(String, String)> = (0..width).map(|j| (format!("m{j}"), if k + 1 < depth { format!("L{}[]", k + 1) } else { "uint8[]".to_string() })).collect(); types.push((format!("L{k}"), ms)); }
+        let msg = J::Obj((0..width).map(|j| (format!("m{j}"), J::Arr(vec![]))).collect());
+        ladders.push((format!("ladder-depth={depth},width={width}"), tdcheck::simple_doc(types, "L0", msg)));
+    }
+    ctx.sweep("dependency-ladders", "type ladders L_k(L_{k+1}[] ...) of depth 10..64 with 2, 3 and 5 references per level, and single chains of 100, 1000 and 5000 types; empty arrays as values: must terminate (and hash like the reference)", ladders.len() as u64, |i| {
+        let (shape, doc) = &ladders[i as usize]; tdcheck::check_doc(ctx, P, "dependency-ladders", i, shape, doc);
+    });
     let odd_types = ["", " ", "[]", "[", "]", "[1", "1]", "[][", "uint", "int", "uint0", "uint8x", "bytes", "bytes00", "bytes033", "uint256[", "uint256[]]", "uint256[-1]", "uint256[18446744073709551616]", "uint256[4294967296]", "uint256[1099511627776]", "uint256[576460752303423487]", "uint256[576460752303423488]", "uint256[9223372036854775808]", "uint256[18446744073709551615]", "uint8[2][18446744073709551615]", "S[1152921504606846976]", "uint08", "uint99999999999", "bytes4294967297", "\u{ff11}", "uint\u{661}", "M", "M[]", "EIP712Domain", "string[1][", "a b", "uint256 x", "(", "uint8[999999]"];
     ctx.sweep("type-name-neighbourhood", "40 malformed or extreme member type names (empty, unbalanced brackets, fixed sizes of 2^32, 2^40, 2^59-1, 2^59, 2^63, 2^64-1, non-ASCII digits, self reference) with scalar, one-element array, object and empty-array values", (odd_types.len() * 4) as u64, |i| {
         let ty = odd_types[i as usize / 4]; let v = [J::n("1"), J::Arr(vec![J::n("1")]), J::obj(vec![("x", J::n("1"))]), J::Arr(vec![])][i as usize % 4].clone();
